@@ -55,6 +55,42 @@ def prune_profile(tier, out, wd):
     return acc, nev
 
 
+def stop_under_load(tier, out, wd):
+    """the agent is stopped while writes to slow remotes are in flight (their channels are full, they only start
+    reading again during the shutdown): every open link must still be closed with an unlinked frame, nothing may be
+    truncated.  The generated scripts all quiesce before they stop, so this situation needs directed scripts."""
+    scripts = []
+    lanes = [("val", "set"), ("map", "upd"), ("sup", "sup")]
+    for cap in (16, 64, 256):
+        for n in ((6, 30) if tier == "quick" else (6, 30, 120)):
+            for which in ((0,), (1,), (0, 1), (0, 2), (0, 1, 2)):
+                acts = [{"k": "attach", "r": 1, "cap": cap}, {"k": "attach", "r": 2, "cap": 4096}]
+                for li in which:
+                    acts.append({"k": "send", "r": 1, "lane": lanes[li][0], "op": "link" if li != 1 else "sync"})
+                acts.append({"k": "send", "r": 2, "lane": "val", "op": "link"})
+                acts.append({"k": "read", "r": 1, "n": len(which)})
+                v = 1
+                for i in range(n):
+                    prog = []
+                    for li in which:
+                        if lanes[li][1] == "set":
+                            prog.append({"i": "set", "lane": "val", "v": v})
+                        elif lanes[li][1] == "upd":
+                            prog.append({"i": "upd", "lane": "map", "key": 1 + i % 3, "v": v})
+                        else:
+                            prog.append({"i": "sup", "v": v})
+                        v += 1
+                    acts.append({"k": "send", "r": 2, "lane": "cmd", "op": "cmd", "m": "prog", "prog": prog[:3], "tag": v, "nosettle": i % 4 != 3})
+                    v += 1
+                acts.append({"k": "read", "r": 2, "n": 0})
+                scripts.append(acts)
+    cases, results = e2e.run_scripts(wd, scripts, {"store": False}, tag="runS", final=("stop",))
+    acc, rej, nev = e2e.validate_cases(out, "C04", "Trace_LinkProtocol", cases, results, e2e.proj_link, CONSTS, wd,
+                                       "link protocol (stop under load)", tag="tvS")
+    core.log("[C04] stop under load: %d scripts, %d projected events, accepted=%d rejected=%d" % (len(cases), nev, acc, rej))
+    return acc, nev
+
+
 def run(tier, out):
     wd = core.workdir("C04")
     agent_loop_b3(out, wd)
@@ -72,6 +108,9 @@ def run(tier, out):
         if pi == 0 and cases:
             out.sample({"script": cases[0]["acts"][:10], "frames": [e for e in results[0]["log"] if e["e"] == "frame"][:12]})
     a, n = prune_profile(tier, out, wd)
+    tot_cases += a
+    tot_events += n
+    a, n = stop_under_load(tier, out, wd)
     tot_cases += a
     tot_events += n
     # demand, demand-map and HTTP lanes (Trace_Demand, Trace_Http; the link protocol applies to every lane kind)
